@@ -19,7 +19,7 @@
    with contents); spec_ent says what each of them looks like afterwards (CopierSel.result). *)
 From Coq Require Import List NArith Bool String.
 From FS Require Import Sx Model.Path Model.Stat Model.Tree Model.Pattern Model.FilterWalk Model.CopierSel
-  Proofs.PathP Proofs.PatternP Proofs.WitnessP Proofs.CopySelP Proofs.CopySelThmP Proofs.CopySelWitnessP.
+  Proofs.PathP Proofs.PatternP Proofs.WitnessP Proofs.CopySelP Proofs.CopySelThmP Proofs.CopySelOkP Proofs.CopySelWitnessP.
 Import ListNotations.
 
 (* ---- copied = entries with the incremental verdict + their ancestors, nothing else ----
@@ -37,6 +37,19 @@ Theorem copy_selects_incr_reference :
     /\ (forall q, q <> [] -> fs' q = spec_ent log fs0 q)
     /\ (forall q, q <> [] -> (fs' q <> None <-> (fs0 q <> None \/ In q (map l_path log)))).
 Proof. exact copy_selects_proof. Qed.
+
+(* ---- the hypothesis "the copy succeeded" is not vacuous: creating parents on demand suffices ----
+   For every matcher, pattern lists and source tree: if every source path that exists in the
+   destination has the same kind there (directory / non-directory) and the landing target is
+   missing or a directory — an empty destination in particular — the copy succeeds: no mkdir or
+   create ever misses its parent directory, no lstat meets a non-directory on the way. *)
+Theorem copy_succeeds_on_compatible_destination :
+  forall pmatch c rootst view fs0,
+    wf_tree view = true ->
+    (forall e o, In e (walk_root view) -> fs0 (st_path (fst e)) = Some o -> e_dir o = st_is_dir (fst e)) ->
+    (forall o, fs0 [] = Some o -> e_dir o = true) ->
+    exists fs' log, copy_sel pmatch c (SrcDir rootst view) fs0 = (fs', log, None).
+Proof. exact (fun pmatch c rootst view fs0 Hwf => copy_succeeds_proof view Hwf pmatch c rootst fs0). Qed.
 
 (* ---- no extra directories ----
    An entry of the source (a directory in particular) that is not selected and has no selected
@@ -102,13 +115,7 @@ Theorem copy_ne_filter_walk_refuted :
     prefix_semantics pmatch /\ wf_tree view = true /\ cfg_star_safe c = false /\
     copy_sel pmatch c (SrcDir rootst view) fs0 = (fs', log, None) /\
     map l_st log <> filter_walk pmatch id_map c view.
-Proof.
-  exact (ex_intro _ pm_k5 (ex_intro _ k5_cfg (ex_intro _ st_dir (ex_intro _ k5_view (ex_intro _ empty_dst
-    (match k5_copy with
-     | ex_intro _ fs' (ex_intro _ log (conj H (conj _ (conj _ Hne)))) =>
-       ex_intro _ fs' (ex_intro _ log (conj pm_k5_semantics (conj k5_wf (conj k5_not_safe (conj H Hne)))))
-     end)))))).
-Qed.
+Proof. exact copy_ne_filter_walk_refuted_proof. Qed.
 
 (* ---- copy vs the naive reference (the reference filter of C10) ----
    under the computable condition no_late_shadow on every path of the tree *)
@@ -128,15 +135,7 @@ Theorem copy_ne_naive_refuted :
     all_paths (nls_path pmatch c) view = false /\
     copy_sel pmatch c (SrcDir rootst view) fs0 = (fs', log, None) /\
     log <> flat_items (keep_naive pmatch c) view.
-Proof.
-  exact (ex_intro _ pm_lit (ex_intro _ k1_cfg (ex_intro _ st_dir (ex_intro _ k1_view (ex_intro _ empty_dst
-    (match k1_copy with
-     | ex_intro _ fs' (ex_intro _ log (conj H (conj _ (conj _ Hne)))) =>
-       ex_intro _ fs' (ex_intro _ log
-         (conj (lit_pmatch_prefix_semantics _)
-               (conj (proj1 k1_wf) (conj (proj1 (proj2 k1_wf)) (conj (proj2 (proj2 k1_wf)) (conj H Hne))))))
-     end)))))).
-Qed.
+Proof. exact copy_ne_naive_refuted_proof. Qed.
 
 (* ---- a single non-directory as the source: the patterns are not consulted ---- *)
 Theorem single_file_source_ignores_patterns :
@@ -145,6 +144,7 @@ Theorem single_file_source_ignores_patterns :
 Proof. exact single_file_proof. Qed.
 
 Print Assumptions copy_selects_incr_reference.
+Print Assumptions copy_succeeds_on_compatible_destination.
 Print Assumptions no_extra_dirs.
 Print Assumptions lazy_parent_metadata.
 Print Assumptions copy_eq_filter_walk_unpruned.
@@ -153,3 +153,57 @@ Print Assumptions copy_ne_filter_walk_refuted.
 Print Assumptions copy_eq_naive.
 Print Assumptions copy_ne_naive_refuted.
 Print Assumptions single_file_source_ignores_patterns.
+
+(* ---- non-vacuity: the tree of filter_test.go with distinctive directory metadata; the same
+        inputs are run against the real copy.Copy by corpus/C16/examples.case ---- *)
+Open Scope string_scope.
+
+Definition look : list string :=
+  ["a"; "a/b"; "a/b/bar"; "a/b/bar/fop"; "a/b/bar/foo"; "a/b/baz"; "bar"; "baz"; "foo"; "foo2"].
+
+(* include a/b/bar/fop into an empty destination: a, a/b, a/b/bar are created on demand with the
+   source directories' mode (sticky bit included), owner and xattrs; no other directory appears *)
+Example ex_deferred_parents :
+  run_ex pm_lit cfg_deep empty_dst look =
+  (None,
+   [(bs "a", false); (bs "a/b", false); (bs "a/b/bar", false); (bs "a/b/bar/fop", true)],
+   [Some ((ModeDir + 457)%N, 0%N, 7%N, [(bs "user.kb", [118%N])]);
+    Some ((ModeDir + ModeSticky + 511)%N, 5%N, 0%N, []);
+    Some ((ModeDir + 448)%N, 1000%N, 5%N, [(bs "user.ka", [1%N; 2%N])]);
+    Some (420%N, 0%N, 0%N, []); None; None; None; None; None; None])
+  /\ wf_tree c16_view = true.
+Proof. vm_compute. split; reflexivity. Qed.
+
+(* the same when a exists already (mode 0500, uid 9, an xattr): a is only chmod'ed *)
+Example ex_existing_parent_chmod_only :
+  run_ex pm_lit cfg_deep dst_with_a ["a"; "a/b"] =
+  (None,
+   [(bs "a", false); (bs "a/b", false); (bs "a/b/bar", false); (bs "a/b/bar/fop", true)],
+   [Some ((ModeDir + 457)%N, 9%N, 0%N, [(bs "user.old", [9%N])]);
+    Some ((ModeDir + ModeSticky + 511)%N, 5%N, 0%N, [])]).
+Proof. vm_compute. reflexivity. Qed.
+
+(* a FILE named a in the destination: the lstat below it fails, the copy aborts *)
+Example ex_parent_is_a_file : run_ex pm_lit cfg_deep dst_file_a [] = (Some ENotDir, [], []).
+Proof. vm_compute. reflexivity. Qed.
+
+(* **, !, trailing /*, directories that match but have no selected descendant (a/b/baz, foo), a
+   directory in which nothing matches (baz): copy = filtered walk = flat naive reference *)
+Definition cfg_mix : cfg :=
+  {| c_inc := Some [ip "a/b/*"; ip "**/foo"; xp "foo/**"]; c_exc := Some [ip "a/b/bar/*"; xp "a/b/bar/fop"; ip "foo2"];
+     c_prune := true |}.
+Definition pm_c16 : list N -> list N -> bool :=
+  lit_pmatch (fun P q =>
+    if bytes_eqb P (bs "**/foo") then
+      bytes_eqb q (bs "foo") || match strip_suffix (bs "/foo") q with Some _ => true | None => false end
+    else false).
+Example ex_mixed :
+  err_of pm_c16 cfg_mix ft_view empty_dst = None
+  /\ lpaths (log_of pm_c16 cfg_mix ft_view empty_dst)
+     = map bs ["a"; "a/b"; "a/b/bar"; "a/b/bar/fop"; "a/b/baz"; "bar"; "bar/foo"; "foo"]
+  /\ map l_sel (log_of pm_c16 cfg_mix ft_view empty_dst) = [false; false; true; true; true; false; true; true]
+  /\ map l_st (log_of pm_c16 cfg_mix ft_view empty_dst) = filter_walk pm_c16 id_map cfg_mix ft_view
+  /\ log_of pm_c16 cfg_mix ft_view empty_dst = flat_items (keep_naive pm_c16 cfg_mix) ft_view
+  /\ (wf_tree ft_view = true /\ wf_strict ft_view = true /\ cfg_star_safe cfg_mix = true
+      /\ all_paths (nls_path pm_c16 cfg_mix) ft_view = true).
+Proof. vm_compute. repeat split; reflexivity. Qed.
